@@ -688,7 +688,7 @@ def correspondence(ck, n_corpus):
     import time
     t0 = time.time()
     ck.extra['corr_text_kb'] = (sum(map(len, cs.small)) + sum(map(len, cs.big))) // 1024
-    ok1, f1, log1 = coqcases.run_cases('c20s', IMPORTS, cs.small, extra=EXTRA, shard=1500)
+    ok1, f1, log1 = coqcases.run_cases('c20s', IMPORTS, cs.small, extra=EXTRA, shard=250)
     ok2, f2, log2 = coqcases.run_cases('c20b', IMPORTS, cs.big, extra=EXTRA, shard=60)
     ck.extra['corr_coq_s'] = round(time.time() - t0, 1)
     good = ok1 and ok2 and not f1 and not f2
@@ -1391,6 +1391,18 @@ def search_one(rep, kind, smi, rng):
         if rd is not None:
             cans.append((form, rd))
             oracle_roundtrip_chython(rep, smi, form, m, rd)
+    if cans:
+        from chython.utils.rdkit import to_rdkit_molecule
+        try:
+            rd0 = to_rdkit_molecule(aro, keep_mapping=False)
+            maps = sorted({a.GetAtomMapNum() for a in rd0.GetAtoms()})
+            if maps != [0] or Chem.MolToSmiles(rd0) != Chem.MolToSmiles(strip_maps(cans[0][1])):
+                rep.counterexample(f'to-keep-mapping:{smi}', 'to_rdkit_molecule(keep_mapping=False) sets atom map numbers or builds another molecule', {'smiles': smi},
+                                   [maps[:5], Chem.MolToSmiles(rd0)], [[0], Chem.MolToSmiles(strip_maps(cans[0][1]))], 'by construction',
+                                   replay_py=py_to(smi, 'aromatic').replace('to_rdkit_molecule(m)', 'to_rdkit_molecule(m, keep_mapping=False)'))
+        except Exception as e:
+            rep.counterexample(f'to-keep-mapping:{smi}', f'to_rdkit_molecule(keep_mapping=False) raises {type(e).__name__} where keep_mapping=True does not', {'smiles': smi},
+                               type(e).__name__, 'a molecule', 'by construction')
     for k in range(2 if n_st or any(int(bd) == 8 for *_, bd in aro.bonds()) else 1):
         rs = respelled(aro, f'{ck.seed}:{smi}:{k}')
         if rs is None:
